@@ -141,7 +141,7 @@ fn script(sc: &Scenario) -> Vec<(u32, Act)> {
 }
 
 fn total_steps(sc: &Scenario) -> u32 {
-    sc.workload_steps + pattern_len(&sc.pattern) + sc.cfg.max_latency_ticks() as u32 + 8
+    sc.workload_steps + pattern_len(&sc.pattern) + 2 * sc.cfg.max_latency_ticks() as u32 + 8
 }
 
 // ------------------------------------------------------------------------------------------------
@@ -651,6 +651,11 @@ fn run_ops(cx: Ctx, ops: Vec<Op>, guard: TaskGuard, stream_in: Option<(TcpStream
                             let len = f.metadata()?.len();
                             cx.log(format!("fs write chunk {k} len={len}"));
                             cx.tag("fs");
+                            if k % 6 == 5 {
+                                let mut names: Vec<String> = sfs::read_dir("/")?.filter_map(|e| e.ok()).map(|e| e.file_name().to_string_lossy().into_owned()).collect();
+                                names.sort();
+                                cx.log(format!("fs root {names:?} first-bytes {:?}", sfs::read(&path).map(|d| d.iter().take(4).copied().collect::<Vec<u8>>()).map_err(|e| e.kind())));
+                            }
                             tokio::time::sleep(cx.tick() * (*gap as u32).max(1)).await;
                         }
                         let mut names: Vec<String> = sfs::read_dir("/")?.filter_map(|e| e.ok()).map(|e| e.file_name().to_string_lossy().into_owned()).collect();
@@ -901,7 +906,11 @@ fn gen_scenario(rng: &mut Rng) -> Scenario {
     }
     if !guarded && rng.chance(1, 3) {
         // unguarded slice only: the victim itself opens connections (accepted, left in the peer's backlog, or refused)
-        let mode = rng.below(3);
+        // a listener that never accepts keeps one request per incarnation of the victim in its backlog
+        let mode = match rng.below(3) {
+            1 if cap < 5 => 0,
+            m => m,
+        };
         let port = 7300 + mode as u16;
         v.push(Op::Spawn { local: true, ops: vec![Op::Sleep { ticks: rng.range(0, w as u64 / 2) as u8 }, Op::Connect { host: p0 as u8, port }, Op::Write { len: 8, times: 1, gap: 0 }, Op::ReadToEnd { buf: 16 }] });
         match mode {
@@ -1078,6 +1087,8 @@ fn execute(sc: &Scenario, keep: bool) -> RunOut {
                 match act {
                     Act::Crash => {
                         sh.log.ev(format!("ctl crash {:?} before step {s}", sel_names));
+                        sh.log.tag("crash");
+                        sh.log.0.borrow_mut().tag_u64(s as u64);
                         do_sel(&mut sim, true);
                         crashes += 1;
                         for &v in &victims {
@@ -1127,6 +1138,8 @@ fn execute(sc: &Scenario, keep: bool) -> RunOut {
                     Act::Bounce => {
                         let before: Vec<u32> = victims.iter().map(|v| sh.counters[*v].factory_calls.load(Ordering::Relaxed)).collect();
                         sh.log.ev(format!("ctl bounce {:?} before step {s}", sel_names));
+                        sh.log.tag("bounce");
+                        sh.log.0.borrow_mut().tag_u64(s as u64);
                         do_sel(&mut sim, false);
                         bounces += 1;
                         for (k, &v) in victims.iter().enumerate() {
@@ -1214,19 +1227,22 @@ fn execute(sc: &Scenario, keep: bool) -> RunOut {
                 }
                 let Some((c, _)) = downs[p.peer].iter().find(|(c, _)| p.conn_born <= *c) else { continue };
                 let from = p.start_step.max(*c);
-                if s >= from + lt + 1 {
+                // a reader learns of the fault from the FIN / RST emitted at the crash instant (one trip);
+                // a writer parked on credits only from the reset that answers its in-flight data (round trip)
+                let bound = if p.kind == PK::Read { lt + 1 } else { 2 * lt + 1 };
+                if s >= from + bound {
                     let class = if p.kind == PK::Read { "PeerReadHang" } else { "PeerWriteHang" };
                     return Ok(Some(Violation::new(
                         class,
                         format!(
-                            "{} has a {:?} pending since step {} on a stream to {} established in step {}; {} went down before step {c}; still pending after step {s} (bound: ceil(latency/tick)+2 = {} steps after the later of the two)",
+                            "{} has a {:?} pending since step {} on a stream to {} established in step {}; {} went down before step {c}; still pending after step {s} (bound: {} steps after the later of the two)",
                             sc.hosts[p.host].name,
                             p.kind,
                             p.start_step,
                             sc.hosts[p.peer].name,
                             p.conn_born,
                             sc.hosts[p.peer].name,
-                            lt + 2
+                            bound + 1
                         ),
                     )));
                 }
@@ -1404,7 +1420,7 @@ impl Property for C04 {
     }
     fn budget(tier: Tier) -> u64 {
         match tier {
-            Tier::Quick => 8_000,
+            Tier::Quick => 10_000,
             Tier::Thorough => 200_000,
         }
     }
@@ -1486,6 +1502,57 @@ impl Property for C04 {
         }
         if twin_compared {
             rep.probes.inc("twin_compared");
+        }
+        if o.crashes + o.bounces > 0 {
+            fn feats(ops: &[Op], depth: u32, out: &mut Vec<&'static str>) {
+                for o in ops {
+                    match o {
+                        Op::Fs { .. } => out.push("victim_phase_fs"),
+                        Op::Ring { .. } => out.push("victim_phase_io_uring"),
+                        Op::UdpJoin { .. } => out.push("victim_phase_udp_membership"),
+                        Op::UdpConnect { .. } => out.push("victim_phase_udp_connected_filter"),
+                        Op::Connect { .. } => out.push("victim_phase_outgoing_connect"),
+                        Op::Return => out.push("victim_main_returns"),
+                        Op::Spawn { local, ops } => {
+                            out.push(if *local { "victim_phase_spawn_local" } else { "victim_phase_tokio_spawn" });
+                            if depth >= 2 {
+                                out.push("victim_tasks_nested_3_deep");
+                            }
+                            feats(ops, depth + 1, out);
+                        }
+                        Op::AcceptLoop { serve } => {
+                            for x in serve {
+                                match x {
+                                    Op::Read { .. } => out.push("victim_phase_reader"),
+                                    Op::Write { .. } => out.push("victim_phase_writer"),
+                                    Op::ReadToEnd { .. } => out.push("victim_phase_idle_streams"),
+                                    _ => {}
+                                }
+                            }
+                        }
+                        _ => {}
+                    }
+                }
+            }
+            let mut f = Vec::new();
+            feats(&sc.hosts[0].ops, 0, &mut f);
+            f.sort();
+            f.dedup();
+            for x in f {
+                rep.probes.inc(x);
+            }
+            match &sc.pattern {
+                Pattern::CrashBounce { k } => rep.probes.inc(match k {
+                    0 => "pattern_bounce_after_0",
+                    1 => "pattern_bounce_after_1",
+                    2 => "pattern_bounce_after_2",
+                    _ => "pattern_bounce_after_7",
+                }),
+                Pattern::CrashOnly => rep.probes.inc("pattern_crash_only"),
+                Pattern::BounceOnly => rep.probes.inc("pattern_bounce_only"),
+                Pattern::Cycles { .. } => rep.probes.inc("pattern_cycles"),
+                Pattern::None => {}
+            }
         }
         if matches!(sc.sel, Sel::Regex(_)) && o.crashes + o.bounces > 0 {
             rep.probes.inc("several_victims_by_regex");
